@@ -8,6 +8,7 @@ from .common import ToolFailure, is_refusal, describe_exc
 from .netlist import compile_harness, ToolError
 from .explore import bfs
 from .conform import simulate
+from amaranth.hdl import Value as AValue
 
 
 def build_or_classify(build, cfg):
@@ -43,7 +44,7 @@ def rederive(build, make_observer, cfg, trace, only, pass_hw=False):
     c.probe_index = {n: k for k, n in enumerate(names)}
     c.in_names = [n for n, _ in h2.inputs]
     c.in_index = {n: k for k, n in enumerate(c.in_names)}
-    c.in_widths = [len(s) if hasattr(s, "__len__") else 1 for _, s in h2.inputs]
+    c.in_widths = [len(AValue.cast(s)) for _, s in h2.inputs]
     c.support = list(c.in_names)
     ob = make_observer(cfg, h2, c)
     st = ob.init
